@@ -112,7 +112,7 @@ pub fn eff(seed: u64) -> Program {
     let mut knobs = g.knobs(faulty);
     knobs.cpus = g.rng.pick(&[1, 1, 2, 2, 3, 4, 16]);
     let policy = if g.rng.chance(85) { Policy::Block } else { g.rng.pick(&[Policy::DropOldest, Policy::DropLatest]) };
-    let nred = g.rng.range(1, 2) as u32;
+    let nred = g.rng.range(1, 3) as u32;
     let reds: Vec<u32> = (0..nred).collect();
     let mws: Vec<u32> = if g.rng.chance(30) { vec![100] } else { vec![] };
     let cap = g.rng.pick(&[2usize, 3, 5, 16, 16]);
